@@ -27,7 +27,13 @@ P = {'id': 'C13',
               'sbr_seek_current',
               'range_reads_concat',
               'range_initial_stream',
-              'zc_reads_concat'],
+              'zc_reads_concat',
+              'types_law',
+              'types_concat_law',
+              'record_fields_law',
+              'versioned_record_law',
+              'vs_accepted_is_record',
+              'vs_same_version_accepts'],
  'trusted': ['modelled (M+S): src/io/var_int.rs (VarInt, SignedVarInt), src/io/var_int_variants.rs (all 7 strategies, single values and sequences); '
              'src/io/simd_encoding/varint.rs (batch = concatenation of scalar LEB128); src/io/data_output.rs / data_input.rs item formats (fixed-width LE, '
              'varint, length-prefixed bytes/strings); src/io/endian.rs EndianIO byte layouts (LE/BE, any width) and byte swap; Option / Vec (u32 count) / '
